@@ -19,6 +19,9 @@ def run(tier):
     o = os.path.join(wd, "out_nightly.json")
     conform("nightly", ["pwstr", tf, o, ck.seed, 0], timeout=3000)
     ck.add_report(json.load(open(o)), prefix="[nightly] ")
+    o = os.path.join(wd, "out_release.json")
+    conform(RELEASE, ["pwstr", tf, o, ck.seed, 0], timeout=3000)
+    ck.add_report(json.load(open(o)), prefix="[%s] " % RELEASE)
     if not ck.cov["distinct_nontrivial"]:
         ck.cov["distinct_nontrivial"] = len(table["valid"]) + len(table["rehash"])
     ck.cov["rule"] = ("objects = algorithm x t x m x salt length {8,15,16,17,64} x hash length {16,31,32,33,128} of PwStr.tla (%d), each hashed, encoded as the spec prescribes, "
